@@ -832,7 +832,7 @@ class LoopTranslator:
         if not (isinstance(el.iter, ast.Call) and ast.unparse(el.iter.func) == 'range' and len(el.iter.args) == 1
                 and isinstance(el.iter.args[0], ast.Name) and el.iter.args[0].id in [a.arg for a in fn.args.args]) or el.orelse:
             self.err(el, 'epoch loop must be `for epoch in range(<max_epochs parameter>)`')
-        env, ops = {}, []
+        env, ops, handoffs = {}, [], []
         for s in el.body:
             if isinstance(s, ast.Assign) and len(s.targets) == 1 and isinstance(s.targets[0], ast.Tuple) and len(s.targets[0].elts) == 2 \
                     and isinstance(s.value, ast.Call) and isinstance(s.value.func, ast.Name) and s.value.func.id in ('train_routine', 'valid_routine'):
@@ -862,6 +862,18 @@ class LoopTranslator:
                     self.err(c, 'metric append not accepted')
                 ops.append(('metrics', self.prefix_of(c.value.func.value.slice, mk), env[s.iter.func.value.id][1]))
                 continue
+            for c in [n for n in ast.walk(s) if isinstance(n, ast.Call)]:
+                for a in list(c.args) + [kw.value for kw in c.keywords]:
+                    if any(isinstance(n, ast.Name) and n.id == H for n in ast.walk(a)):
+                        if isinstance(a, ast.Name):
+                            handoffs.append((ast.unparse(c.func), 'alias'))
+                        elif ast.unparse(a) in (f'dict({H})', f'{H}.copy()'):
+                            handoffs.append((ast.unparse(c.func), 'alias-of-series'))      # shallow copy: the lists are still shared
+                        elif ast.unparse(a) in (f'copy.deepcopy({H})', f'deepcopy({H})') or \
+                                ast.unparse(a).replace(' ', '') in ('{k:list(v)fork,vin%s.items()}' % H, '{k:v[:]fork,vin%s.items()}' % H):
+                            handoffs.append((ast.unparse(c.func), 'copy'))
+                        else:
+                            self.err(a, f'cannot tell whether `{ast.unparse(a)}` shares the history with the callee')
             if any((isinstance(n, ast.Name) and n.id == H and isinstance(n.ctx, ast.Store)) for n in ast.walk(s)) or \
                     any(isinstance(n, ast.Subscript) and ast.unparse(n.value) == H and isinstance(n.ctx, (ast.Store, ast.Del)) for n in ast.walk(s)) or \
                     any(isinstance(n, ast.Attribute) and n.attr in ('append', 'extend', 'pop', 'clear', 'update', 'insert', 'remove', 'setdefault')
@@ -872,13 +884,116 @@ class LoopTranslator:
         if not (isinstance(ret, ast.Tuple) and len(ret.elts) == 2 and ast.unparse(ret.elts[1]) == H):
             self.err(body[3], 'the history must be returned as the second component')
         q = lambda x: chr(34) + x + chr(34)
+        # who receives the live history, and does any receiver defined in this file change it
+        receivers = []
+        for callee, how in handoffs:
+            if how == 'copy':
+                continue
+            meth = callee.rsplit('.', 1)[-1]
+            found = False
+            for cls in [n for n in self.tree.body if isinstance(n, ast.ClassDef)]:
+                for m in cls.body:
+                    if isinstance(m, ast.FunctionDef) and m.name == meth:
+                        found = True
+                        pos = None
+                        # which parameter receives the history: positional index in the call
+                        receivers.append((f'{cls.name}.{meth}', m, how))
+            if not found:
+                self.err(el, f'the history is handed to `{callee}`, which is not defined in this file')
+        purity = []
+        for name, m, how in receivers:
+            params = [a.arg for a in m.args.args]
+            if 'history' not in params:
+                self.err(m, f'{name} has no `history` parameter')
+            why = self.mutates(m, {'history'}, set())
+            purity.append((name, why is None, why or ''))
+        copy_only = all(how == 'copy' for _, how in handoffs)
         coq = '\n'.join([
             f'(* {fname}: history literal at line {h.lineno}, epoch loop at line {el.lineno} *)',
             f'Definition history_init_keys : list string := [{"; ".join(q(k) for k in keys)}]%string.',
             f'Definition history_init_prefixes : list string := [{"; ".join(q(k) for k in prefixes)}]%string.',
             'Definition history_epoch_ops : list hop :=\n  [' + ';\n   '.join(
-                f'{"HLoss" if kind == "loss" else "HMetrics"} {q(k)}%string {"true" if tr else "false"}' for kind, k, tr in ops) + '].'])
-        return {'keys': keys, 'prefixes': prefixes, 'ops': ops, 'coq': coq}
+                f'{"HLoss" if kind == "loss" else "HMetrics"} {q(k)}%string {"true" if tr else "false"}' for kind, k, tr in ops) + '].',
+            '(* hand-off of the LIVE history dictionary out of the epoch loop (monitor.check): receivers defined in this file and',
+            '   whether their code performs no in-place operation on it (fail-closed analysis of every use of the parameter) *)',
+            f'Definition history_handoff_is_copy : bool := {"true" if copy_only else "false"}.',
+            'Definition history_receivers_pure : list (string * bool) :=\n  [' + ';\n   '.join(
+                f'({q(n)}%string, {"true" if ok else "false"})' + (f' (* {why} *)' if why else '') for n, ok, why in purity) + '].'])
+        return {'keys': keys, 'prefixes': prefixes, 'ops': ops, 'coq': coq, 'handoffs': handoffs,
+                'receivers': [(n, ok, why) for n, ok, why in purity]}
+
+    MUTATORS = {'append', 'extend', 'insert', 'pop', 'popitem', 'remove', 'clear', 'update', 'setdefault', 'sort', 'reverse',
+                '__setitem__', '__delitem__'}
+    READERS = {'items', 'keys', 'values', 'get', 'copy', 'index', 'count'}
+    PURE_BUILTINS = {'len', 'min', 'max', 'sum', 'list', 'tuple', 'dict', 'enumerate', 'zip', 'float', 'int', 'str', 'sorted', 'reversed',
+                     'isinstance', 'print', 'range', 'abs', 'any', 'all', 'iter', 'next'}
+
+    def mutates(self, fn, params, seen):
+        """None if the function provably performs no in-place operation on the objects bound to `params`
+        (or reachable from them); otherwise a short reason.  Aliases are tracked through assignments and
+        loop targets; handing an alias to a function of this file recurses; handing it to anything else
+        than a method of `self`-owned plotting objects or a pure builtin is refused."""
+        if (fn.name, tuple(sorted(params))) in seen:
+            return None
+        seen = seen | {(fn.name, tuple(sorted(params)))}
+        aliases = set(params)
+
+        def rooted(e):
+            while isinstance(e, (ast.Attribute, ast.Subscript)):
+                e = e.value
+            return isinstance(e, ast.Name) and e.id in aliases
+
+        def mentions(e):
+            return any(isinstance(n, ast.Name) and n.id in aliases for n in ast.walk(e))
+        for _ in range(3):
+            for n in ast.walk(fn):
+                if isinstance(n, ast.Assign) and mentions(n.value) and not isinstance(n.value, (ast.ListComp, ast.DictComp, ast.SetComp, ast.GeneratorExp)):
+                    for t in n.targets:
+                        for x in ast.walk(t):
+                            if isinstance(x, ast.Name):
+                                aliases.add(x.id)
+                if isinstance(n, (ast.For, ast.comprehension)) and mentions(n.iter):
+                    for x in ast.walk(n.target):
+                        if isinstance(x, ast.Name):
+                            aliases.add(x.id)
+        for n in ast.walk(fn):
+            if isinstance(n, (ast.Assign, ast.AugAssign, ast.Delete, ast.AnnAssign)):
+                tg = n.targets if isinstance(n, (ast.Assign, ast.Delete)) else [n.target]
+                for t in tg:
+                    if isinstance(t, (ast.Subscript, ast.Attribute)) and rooted(t):
+                        return f'line {n.lineno}: writes {ast.unparse(t)}'
+                if isinstance(n, ast.AugAssign) and isinstance(n.target, ast.Name) and n.target.id in aliases:
+                    return f'line {n.lineno}: in-place operator on {n.target.id}'
+            if isinstance(n, ast.Call):
+                f = n.func
+                args = list(n.args) + [kw.value for kw in n.keywords]
+                if isinstance(f, ast.Attribute) and rooted(f):
+                    if f.attr in self.MUTATORS:
+                        return f'line {n.lineno}: {ast.unparse(f)}()'
+                    if f.attr not in self.READERS:
+                        return f'line {n.lineno}: unknown method {ast.unparse(f)}()'
+                    continue
+                shared = [a for a in args if mentions(a) and not isinstance(a, (ast.Constant, ast.JoinedStr))]
+                if not shared:
+                    continue
+                if isinstance(f, ast.Name) and f.id in self.funcs:
+                    g = self.funcs[f.id]
+                    gp = [p.arg for p in g.args.args]
+                    sub = {p for p, a in zip(gp, n.args) if mentions(a)} | {kw.arg for kw in n.keywords if kw.arg in gp and mentions(kw.value)}
+                    why = self.mutates(g, sub, seen)
+                    if why:
+                        return f'line {n.lineno}: {f.id}: {why}'
+                    continue
+                if isinstance(f, ast.Name) and f.id in self.PURE_BUILTINS:
+                    continue
+                if isinstance(f, ast.Attribute):
+                    r = f
+                    while isinstance(r, (ast.Attribute, ast.Subscript, ast.Call)):
+                        r = r.func if isinstance(r, ast.Call) else r.value
+                    if isinstance(r, ast.Name) and r.id in ('self', 'plt', 'np', 'torch', 'math'):
+                        continue              # plotting / numeric libraries read their data arguments
+                return f'line {n.lineno}: hands the history to {ast.unparse(f)}'
+        return None
 
     def prefix_of(self, e, var):
         if isinstance(e, ast.BinOp) and isinstance(e.op, ast.Add) and isinstance(e.left, ast.Constant) and isinstance(e.left.value, str) \
@@ -948,7 +1063,8 @@ def generate(repo, outdir):
     samplers = {f: {'carried': tr.done[f]['carried'], 'lines': tr.done[f]['lines']} for f in order}
     js['__samplers__'] = samplers
     js['__loops__'] = {l['name']: {'state': l['state'], 'params': l['params'], 'line': l['line']} for l in loops}
-    js['__history__'] = {'keys': hist['keys'], 'prefixes': hist['prefixes'], 'ops': hist['ops']}
+    js['__history__'] = {'keys': hist['keys'], 'prefixes': hist['prefixes'], 'ops': hist['ops'], 'handoffs': hist['handoffs'],
+                         'receivers': hist['receivers']}
     with open(os.path.join(outdir, 'Gen_C20.json'), 'w') as f:
         json.dump(js, f)
     return True, {'results': results, 'samplers': samplers, 'loops': js['__loops__'], 'history': js['__history__'], 'vpath': vpath,
